@@ -453,9 +453,42 @@ def knife(rnd):
     return _names(m)
 
 
+def cover(rnd, nr, nc, per=4):
+    """min c.x, A x >= b, x >= 0 with c > 0, sparse mixed-sign integer A and b = A x0 - s: feasible, bounded (OPTIMAL), the
+    polyhedron has rays, and from the slack start basis the simplex needs a few hundred pivots in phase II (several
+    refactorizations inside one phase).  Optimal value not planted."""
+    m = LP("cover", MIN)
+    m.cols = [Col(None, F(rnd.randint(1, 20)), F(0), INF) for _ in range(nc)]
+    rows = [Row(None, "G", F(0)) for _ in range(nr)]
+    for j, c in enumerate(m.cols):
+        x0 = rnd.randrange(6)
+        for i in set(rnd.randrange(nr) for _ in range(per)):
+            v = F(rnd.randint(1, 9)) * (-1 if rnd.randrange(3) == 0 else 1)
+            rows[i].coef[c] = v
+            rows[i].rhs += v * x0
+    for r in rows:
+        r.rhs -= rnd.randrange(4)
+    m.rows = rows
+    m.truth = dict(status="OPTIMAL")
+    return _names(m)
+
+
+def big(rnd):
+    """planted-optimal LPs large enough that a solve goes through several refactorizations (eta limit 100) in both phases"""
+    if rnd.random() < 0.4:
+        m = cover(rnd, rnd.randint(150, 230), rnd.randint(230, 340))
+    else:
+        nr, nc = rnd.randint(130, 200), rnd.randint(180, 280)
+        m = planted_optimal(rnd, nr, nc, "int", dens=rnd.choice([4.0, 6.0, 9.0]) / nc)
+    m.name = "big"
+    return m
+
+
 def family(rnd, name):
     if name == "knife":
         return knife(rnd)
+    if name == "big":
+        return big(rnd)
     if name == "small-rand":
         return small_rand(rnd)
     if name == "small-int":
